@@ -31,11 +31,11 @@ type SeqCheck struct {
 	// E1
 	GenQuick    SeqModel
 	GenThorough SeqModel
-	SampleQuick int // states sampled in the quick tier (0 = all)
+	SampleQuick int        // states sampled in the quick tier (0 = all)
 	GenMore     []SeqModel // further bounded families explored completely in both tiers (small)
 	// E5: crafted initial stores x alphabet
-	CraftQuick    SeqModel
-	CraftThorough SeqModel
+	CraftQuick     SeqModel
+	CraftThorough  SeqModel
 	Craft2Quick    SeqModel // a second crafted family (legacy stores)
 	Craft2Thorough SeqModel
 	// E2
